@@ -52,6 +52,7 @@ class Entry:
         self.subst = []  # (from, to, tag)
         self.callrewrite = []  # (method, function path, tag)
         self.sigsubst = []
+        self.tryexpand = []
         self.nocanary = None
         self.rename = None
 
@@ -94,6 +95,11 @@ def parse_vc(path):
                     cur.rename = rest
                 elif word == "nocanary":
                     cur.nocanary = rest or "unspecified"
+                elif word == "tryexpand":
+                    m = re.match(r'"(.*)"\s*(?:#(\d+))?$', rest)
+                    if not m or not m.group(1).rstrip().endswith("?"):
+                        raise SystemExit(f"{path}:{ln}: //@tryexpand needs a quoted snippet ending in ?")
+                    cur.tryexpand.append((m.group(1), int(m.group(2) or 1)))
                 elif word == "sigsubst":
                     m = re.match(r'"(.*)"\s*=>\s*"(.*)"\s*(#\S+)?$', rest)
                     if not m:
@@ -107,7 +113,7 @@ def parse_vc(path):
                     if not m:
                         raise SystemExit(f"{path}:{ln}: bad //@subst")
                     cur.subst.append((m.group(1), m.group(2), m.group(3) or "#N?"))
-                elif word in ("sig", "loop", "closure", "before", "after", "wraptail", "armstart", "armend"):
+                elif word in ("sig", "loop", "closure", "before", "after", "wraptail", "armstart", "armend", "bodystart"):
                     blk = Block(word, rest, path, ln)
                     cur.blocks.append(blk)
                 else:
@@ -591,6 +597,15 @@ def emit_fn(out, entry, mode, stats, canary=False):
                     continue
                 edits.append((rng[0], rng[1] + 1, rep, dict(kind="gen", fn=entry.id, norm=tag)))
             stats.count(tag.lstrip("#"))
+        # tryexpand (N18): `E?` => `match E { Ok(v) => v, Err(e) => return Err(From::from(e)) }` -- the meaning the Rust
+        # reference gives to `?` on a Result; Verus itself does not connect `?` with the From implementation
+        for snip, occ in entry.tryexpand:
+            r_ = find_snippet(sf, bo + 1, last, snip, occ)
+            if r_ is None:
+                raise LostAnchor(f"{entry.id}: tryexpand source {snip!r} not found")
+            edits.append((r_[0], r_[0], "(match ", dict(kind="gen", fn=entry.id, norm="N18")))
+            edits.append((r_[1], r_[1] + 1, " { Ok(verif_ok) => verif_ok, Err(verif_err) => return Err(core::convert::From::from(verif_err)) })", dict(kind="gen", fn=entry.id, norm="N18")))
+            stats.count("N18")
         # callrewrite (N9): `<recv>.m()` => `F(<recv>)`  (method call written as the function rustc resolves it to)
         for meth, fpath, tag in entry.callrewrite:
             for n, i in enumerate(body):
@@ -652,6 +667,9 @@ def emit_fn(out, entry, mode, stats, canary=False):
                             continue
                         edits.append((i, i + 1, f"(*{name})", dict(kind="gen", fn=entry.id, norm="N3")))
                         stats.count("N3")
+        # bodystart: ghost declarations at the very start of the body (visible to a wraptail proof)
+        for b in entry.block("bodystart"):
+            edits.append((bo + 1, bo + 1, "\n" + b.text().rstrip("\n") + "\n", vc_origin(b)))
         # wraptail
         for b in entry.block("wraptail"):
             r = b.arg or "__r"
